@@ -39,7 +39,7 @@ ToNat(x) == ToNatFrom(x, 1)
 RECURSIVE FromNat(_)
 FromNat(n) == IF n = 0 THEN <<>> ELSE <<n % 256>> \o FromNat(n \div 256)
 \* fixed length L, truncating
-FromNatL(n, L) == [i \in 1..L |-> (n \div (256 ^ (i - 1))) % 256]
+FromNatL(n, L) == [i \in 1..L |-> IF i > 4 THEN 0 ELSE (n \div (256 ^ (i - 1))) % 256]   \* n < 2^31
 
 (***************************************************************************)
 (* Bits.  Bit(x,i) is bit i (0 = least significant) of the sequence.       *)
